@@ -216,3 +216,18 @@ for j in JOBS:
         j['est_s'] = EST[j['name']]
     if j['name'] in NOTES:
         j['note'] = NOTES[j['name']]
+
+# ---- alignment quantifier, bounded in count, overlay-free (cannot drift) -------------------------------------
+def mj(fn, quick, est, **kw):
+    d = dict(name='c15_sse_mis_' + fn, entry='h_sse_mis_' + fn, prop='C15', harness='harness/C15/sse_misaligned.c', overlays=[],
+             loop_contracts=False, defines=E['defines'] + ['CQV_MIS_MAX=12'], extra_sources=E['extra_sources'], trusted=E['trusted'],
+             unwindset=UNW_IA32, unwind=14, functions=['carquet_sse_' + fn], level='bounded',
+             bound='count 0..12, buffer starting 0..7 elements into an exactly sized block, all data',
+             tier='quick' if quick else 'thorough', est_s=est, wip=False, timeout=900, backend=['cadical', 'sat'])
+    d.update(kw)
+    return d
+_OOM = 'UNDECIDED: cbmc runs out of memory (8 GB) / time (900 s) on the symbolic block sizes; not live'
+MIS_JOBS = [mj('crc32c', True, 150), mj('count_non_nulls', True, 150), mj('build_null_bitmap', False, 150), mj('find_run_length_i32', False, 150),
+            mj('unpack_bools', False, 60, wip=True, note=_OOM), mj('prefix_sum_i32', False, 60, wip=True, note=_OOM),
+            mj('fill_def_levels', False, 30, wip=True, note=_OOM)]
+JOBS += MIS_JOBS
